@@ -285,7 +285,7 @@ def run(c):
     ] + [(k, cfg, 1, 600, None) for (k, cfg, _, _) in (ASCODED if not REPAIRED[0] else [])]
     if not quick:
         jobs.append(("genfull", "Gen_DposLib_full.cfg", 1, 1500, None))
-        jobs.append(("simfix", "Sim_DposLib_fix.cfg", 3, 1500, ["-simulate", "num=25000", "-depth", "70", "-seed", str(c.seed * 7919 + 5)]))
+        jobs.append(("simfix", "Sim_DposLib_fix.cfg", 3, 1500, ["-simulate", "num=12000", "-depth", "70", "-seed", str(c.seed * 7919 + 5)]))
     with concurrent.futures.ThreadPoolExecutor(max_workers=2) as ex:
         fb = ex.submit(build_harness, c)
         ft = ex.submit(tlc_batch, c, jobs, 5)
